@@ -57,7 +57,7 @@ def _pipeline(plan, wgroup):
 ALLB = ("scene", "photon", "charge", "pixel", "signal", "image")
 
 
-def _prefill(det, nd):
+def _prefill_buckets(det):
     import verif_probes_c02 as pc
 
     geo = det.geometry
@@ -72,6 +72,10 @@ def _prefill(det, nd):
     det.signal.array = np.full(shape, 94.0)
     det.image.array = np.full(shape, 95, dtype=np.uint16)
     pc.add_scene_source(det)
+
+
+def _prefill(det, nd):
+    _prefill_buckets(det)
     # a stale clock from "another run"
     det.set_readout(times=[7.0, 8.0, 16.0], start_time=3.0, non_destructive=not nd)
     det.readout_properties.time = 8.0
@@ -114,32 +118,81 @@ def _history(det, kind, nd, rows, cols):
     raise ValueError(kind)
 
 
-def _exc(stage, ex, executed, d0=None):
-    return dict(stage=stage, executed=int(executed), exc=type(ex).__name__, msg=str(ex)[:160], d0=d0)
+TAMPER_RP = ("start_time", "time", "time_step", "pipeline_count", "read_out")
 
 
-def handle(p):
+def _tamper(det, ops):
+    """What a caller may do to the detector between two runs, through public attributes only."""
+    for target, val in ops or []:
+        if target == "junk":
+            _prefill_buckets(det)
+            continue
+        if target == "set_readout":
+            det.set_readout(times=[_f(v) for v in val["times"]], start_time=_f(val["start"]),
+                            non_destructive=bool(val["nd"]))
+            continue
+        if not det.is_dynamic:          # no ReadoutProperties object yet: nothing to assign to
+            continue
+        where, attr = target.split(".")
+        if attr not in TAMPER_RP:
+            raise RuntimeError(f"unknown tamper target {target}")
+        v = int(val) if attr == "pipeline_count" else (bool(val) if attr == "read_out" else _f(val))
+        setattr(det.readout_properties if where == "rp" else det, attr, v)
+
+
+def _run_entry(det, pipe, ro, entry):
+    import pyxel
+    from harness import pyx
+
+    if entry in (None, "run_mode"):
+        pyx.run_exposure(det, pipe, ro)
+    elif entry == "run_exposure":
+        from pyxel.exposure import Exposure
+        from pyxel.pipelines import Processor
+
+        Exposure(readout=ro).run_exposure(processor=Processor(detector=det, pipeline=pipe), debug=False,
+                                          with_inherited_coords=True)
+    elif entry == "exposure_mode":
+        import warnings
+
+        from pyxel.exposure import Exposure
+
+        with warnings.catch_warnings():
+            warnings.simplefilter("ignore")
+            pyxel.exposure_mode(exposure=Exposure(readout=ro), detector=det, pipeline=pipe)
+    else:
+        raise RuntimeError(f"unknown entry {entry}")
+
+
+def _one_run(det, p, ro_prev):
+    """One run of a session on [det]. Returns (result, the Readout object it used, or the stage (0 / 1) at
+    which obtaining it failed)."""
     import verif_probes as vp
     import verif_probes_c02 as pc
-    from harness import pyx
     from pyxel.exposure import Readout
 
-    rows, cols = p.get("rows", 2), p.get("cols", 3)
     nd = bool(p["nd"])
-    det = pyx.make_detector(kind=p.get("detector", "ccd"), rows=rows, cols=cols)
-    vp.reset()
-    pc.reset()
-    _history(det, p.get("history", "fresh"), nd, rows, cols)
+    _tamper(det, p.get("tamper"))
     d0 = pc.buckets(det)
+    rp0 = pc.rp_public(det)
     vp.reset()
     pc.reset()
 
-    # --- constructor
-    try:
-        kw = _times_arg(p["form"], p.get("times", []), p.get("expr"))
-        ro = Readout(start_time=_f(p["start"]), non_destructive=nd, **kw)
-    except Exception as ex:  # noqa: BLE001
-        return _exc(0, ex, pc.EXEC[0], d0)
+    def _exc(stage, ex, executed):
+        return dict(stage=stage, executed=int(executed), exc=type(ex).__name__, msg=str(ex)[:160], d0=d0, rp0=rp0)
+
+    # --- the Readout object: a new one, or the one of the previous run (further setter calls below)
+    if p.get("reuse"):
+        if isinstance(ro_prev, int) or ro_prev is None:
+            # the object this run was to re-use could not be built: the same refusal, seen again
+            return _exc(ro_prev or 0, RuntimeError("no Readout object left by the previous run"), 0), ro_prev
+        ro = ro_prev
+    else:
+        try:
+            kw = _times_arg(p["form"], p.get("times", []), p.get("expr"))
+            ro = Readout(start_time=_f(p["start"]), non_destructive=nd, **kw)
+        except Exception as ex:  # noqa: BLE001
+            return _exc(0, ex, pc.EXEC[0]), 0
     # --- the caller's operations
     try:
         for kind, arg in p.get("ops", []):
@@ -163,16 +216,16 @@ def handle(p):
     except RuntimeError:
         raise
     except Exception as ex:  # noqa: BLE001
-        return _exc(1, ex, pc.EXEC[0], d0)
+        return _exc(1, ex, pc.EXEC[0]), 1
     # --- run
     pipe = _pipeline(p.get("plan", []), p.get("wgroup", "charge_collection"))
     try:
-        pyx.run_exposure(det, pipe, ro)
+        _run_entry(det, pipe, ro, p.get("entry"))
     except Exception as ex:  # noqa: BLE001
-        return _exc(2, ex, pc.EXEC[0], d0)
+        return _exc(2, ex, pc.EXEC[0]), ro
     log = list(pc.LOG)
     if len(log) % 2 != 0:
-        return {"driver_error": "odd number of observations"}
+        return {"driver_error": "odd number of observations"}, ro
     FIELDS = ("time", "time_step", "absolute_time", "pipeline_count", "is_first_readout", "is_last_readout")
 
     def same(ca, cb):
@@ -191,14 +244,36 @@ def handle(p):
     for k in range(0, len(log), 2):
         a, b = log[k], log[k + 1]
         if a["where"] != "first" or b["where"] != "last":
-            return {"driver_error": f"probe order {a['where']}/{b['where']}"}
+            return {"driver_error": f"probe order {a['where']}/{b['where']}"}, ro
         if not same(a["clock"], b["clock"]) or not same(a["clock_rp"], b["clock_rp"]):
-            return {"driver_error": f"clock changed inside a step: {a['clock']} / {b['clock']}"}
+            return {"driver_error": f"clock changed inside a step: {a['clock']} / {b['clock']}"}, ro
         if not same(a["clock"], a["clock_rp"]):
             differ = True
         obs.append(dict(clock=canon(a["clock"]), begin=a["buckets"], end=b["buckets"]))
         obs_rp.append(dict(clock=canon(a["clock_rp"]), begin=a["buckets"], end=b["buckets"]))
-    out = dict(stage=None, executed=int(pc.EXEC[0]), d0=d0, obs=obs)
+    out = dict(stage=None, executed=int(pc.EXEC[0]), d0=d0, rp0=rp0, obs=obs)
     if differ:
         out["obs_rp"] = obs_rp      # the two public views of the clock disagree: both are judged
-    return out
+    return out, ro
+
+
+def handle(p):
+    """p = the judged run; p["pre"] = the earlier runs made on the SAME detector object (a session).
+    With p["all_runs"] the result of every run of the session is returned ({"outs": [...]})."""
+    import verif_probes as vp
+    import verif_probes_c02 as pc
+    from harness import pyx
+
+    runs = list(p.get("pre") or []) + [p]
+    rows, cols = p.get("rows", 2), p.get("cols", 3)
+    det = pyx.make_detector(kind=p.get("detector", "ccd"), rows=rows, cols=cols)
+    vp.reset()
+    pc.reset()
+    _history(det, p.get("history", "fresh"), bool(runs[0]["nd"]), rows, cols)
+    outs, ro = [], None
+    for r in runs:
+        out, ro = _one_run(det, r, ro)
+        outs.append(out)
+        if "driver_error" in out:
+            return out
+    return {"outs": outs} if p.get("all_runs") else outs[-1]
